@@ -27,6 +27,7 @@ real-time (call/return) order only.
 """
 import collections
 import logging
+import time
 
 import dsched
 from common import cZ, cbool, clist
@@ -56,13 +57,49 @@ def canon(v):
 # the scenario (runs in a forked child under dsched)
 # ------------------------------------------------------------------------------------------------
 
-def scenario(s, script, ops, window):
-    """script = {"body": [action...], "end": "ok"|"exc"|"baseexc"|"stopexc"};
+END_KINDS = ["ok", "exc", "exc_custom", "baseexc", "sysexit", "kbint", "stopexc", "stopexc_sub"]
+TRACED = ["QMI_Task.update_settings", "QMI_TaskRunner.set_settings", "QMI_TaskRunner.get_pending_settings",
+          "_TaskThread.run", "_TaskThread.start_task", "_TaskThread.stop_task"]
+
+
+def make_exc(kind, stop_cls):
+    """The exception a scripted run() / task constructor raises: the class is an input."""
+    if kind == "exc":
+        return RuntimeError("scripted failure")
+    if kind == "exc_custom":
+        return type("ScriptedError", (Exception,), {})("scripted")
+    if kind == "baseexc":
+        return type("ScriptedBase", (BaseException,), {})()
+    if kind == "sysexit":
+        return SystemExit(3)
+    if kind == "kbint":
+        return KeyboardInterrupt()
+    if kind == "stopexc":
+        return stop_cls()
+    if kind == "stopexc_sub":
+        return type("ScriptedStop", (stop_cls,), {})()
+    raise ValueError(kind)
+
+
+def line_yields(T, orig_thread_run):
+    """every source line of the named functions becomes a scheduling point (no reliance on the deque probe)"""
+    dsched.enable_line_yields([T.QMI_Task.update_settings, T.QMI_TaskRunner.set_settings,
+                               T.QMI_TaskRunner.get_pending_settings, orig_thread_run,
+                               T._TaskThread.start_task, T._TaskThread.stop_task])
+
+
+def scenario(s, script, ops, window, lines=False, init_fail=None):
+    """script = {"body": [action...], "end": one of END_KINDS};
     actions: ["U"] update_settings, ["P"] stop_requested, ["S", d] self.sleep(d), ["Z", d] plain delay,
              ["L", n, d] up to n rounds of: stop_requested? break; update_settings; self.sleep(d).
     ops = list of ["start"] ["stop"] ["join"] ["isrun"] ["set", k] ["get"] ["getp"] ["sleep", d]
           ["with", [ops...]] ["remove"].
-    window: "all" (recording from before make_task) | "ops" (recording only while the ops run)."""
+    window: "all" (recording from before make_task) | "ops" (recording only while the ops run).
+    lines: line-level scheduling points inside the functions named in TRACED (then the deque probe does
+    not add scheduling points of its own).
+    init_fail: None | [exception kind, "pre"|"post"]: the task constructor raises (before / after
+    QMI_Task.__init__); then ops is ignored: make_task must raise, and afterwards a task of the same name
+    is created, started and joined to see that nothing was left behind."""
     import qmi.core.task as T
     import qmi.core.context as C
     from qmi.core.exceptions import QMI_TaskStopException
@@ -72,52 +109,59 @@ def scenario(s, script, ops, window):
     s.recording = False
     holder = {}
 
-    class ScriptedBase(BaseException):
-        pass
+    def probe_yield():
+        if not lines:
+            s.yield_point(("fifo",))
 
     class LogDeque(collections.deque):
         """The settings slot, observed: same behaviour as the deque it replaces (same maxlen); every
         operation is a scheduling point and is logged at the moment it takes effect."""
 
         def append(self, v):
-            s.yield_point(("fifo",))
+            probe_yield()
             collections.deque.append(self, v)
             s.log("fifo.append", canon(v))
 
         def appendleft(self, v):
-            s.yield_point(("fifo",))
+            probe_yield()
             collections.deque.appendleft(self, v)
             s.log("fifo.append", canon(v))
 
         def pop(self):
-            s.yield_point(("fifo",))
+            probe_yield()
             v = collections.deque.pop(self)
             s.log("fifo.pop", canon(v))
             return v
 
         def popleft(self):
-            s.yield_point(("fifo",))
+            probe_yield()
             v = collections.deque.popleft(self)
             s.log("fifo.pop", canon(v))
             return v
 
         def __bool__(self):
-            s.yield_point(("fifo",))
+            probe_yield()
             b = collections.deque.__len__(self) > 0
             s.log("fifo.bool", b, canon(holder["task"]._sv))
             return b
 
         def __iter__(self):
-            s.yield_point(("fifo",))
+            probe_yield()
             s.log("fifo.iter", [canon(x) for x in collections.deque.__iter__(self)])
             return collections.deque.__iter__(self)
 
     class ScriptTask(T.QMI_Task):
         def __init__(self, runner, name):
             self._sv = None
+            holder.setdefault("runner", runner)
+            if init_fail and not holder.get("second") and init_fail[1] == "pre":
+                s.log("T_init_raise")
+                raise make_exc(init_fail[0], QMI_TaskStopException)
             super().__init__(runner, name)
-            holder["task"] = self
-            holder["runner"] = runner
+            holder.setdefault("task", self)
+            if init_fail and not holder.get("second") and init_fail[1] == "post":
+                s.log("T_init_raise")
+                raise make_exc(init_fail[0], QMI_TaskStopException)
             orig = self._settings_fifo
             self._settings_fifo = LogDeque(orig, maxlen=orig.maxlen)
             self.settings = mkval(V0)
@@ -157,12 +201,8 @@ def scenario(s, script, ops, window):
                                 break
                             self._upd()
                             self.sleep(a[2])
-                if script["end"] == "exc":
-                    raise RuntimeError("scripted failure")
-                if script["end"] == "baseexc":
-                    raise ScriptedBase()
-                if script["end"] == "stopexc":
-                    raise QMI_TaskStopException()
+                if script["end"] != "ok":
+                    raise make_exc(script["end"], QMI_TaskStopException)
             except QMI_TaskStopException:
                 kind = "stopexc"
                 raise
@@ -179,6 +219,7 @@ def scenario(s, script, ops, window):
         try:
             orig_thread_run(self)
         finally:
+            s.yield_point(("thread-return",))   # a thread can be pre-empted between the end of run() and its exit
             s.log("T_exit")          # no scheduling point between this and the thread becoming joinable
 
     T._TaskThread.run = thread_run
@@ -188,12 +229,14 @@ def scenario(s, script, ops, window):
             return
         th = holder["runner"]._thread
         ids = {"state": id(th._state_cond._lock), "statecv": id(th._state_cond),
-               "flag": id(holder["task"]._stop_requested), "tw": s.by_real[th].tid}
+               "flag": id(holder["task"]._stop_requested) if "task" in holder else None,
+               "tw": s.by_real[th].tid}
         obs["ids"] = ids
         keep = []
         for e in s.events[obs.get("ev0", 0):]:
             k = e[1]
-            if k in ("call", "ret", "T_begin", "T_end", "T_exit", "T_upd", "T_upd_call", "fifo.append", "fifo.pop",
+            if k in ("call", "ret", "made", "T_init_raise", "T_begin", "T_end", "T_exit", "T_upd", "T_upd_call",
+                     "fifo.append", "fifo.pop",
                      "fifo.bool", "fifo.iter", "settings.get", "settings.set"):
                 keep.append(list(e))
             elif k == "acq" and e[2] == ids["state"]:
@@ -214,10 +257,39 @@ def scenario(s, script, ops, window):
 
     ctx = C.QMI_Context("c10ctx")
     ctx.start()
+    if lines:
+        line_yields(T, orig_thread_run)
     obs["ev0"] = len(s.events)
     if window == "all":
         s.recording = True
+    if init_fail:
+        alive0 = set(t.tid for t in s.threads if t.state in (dsched.RUNNABLE, dsched.BLOCKED))
+        s.recording = True
+        s.log("call", 0, "make")
+        try:
+            ctx.make_task("tsk", ScriptTask)
+            res = ["none"]
+        except BaseException as e:  # noqa
+            res = ["exc", type(e).__name__]
+        s.log("ret", 0, "make", res)
+        s.recording = False
+        obs["left_alive"] = [t.name for t in s.threads
+                             if t.state in (dsched.RUNNABLE, dsched.BLOCKED) and t.tid not in alive0]
+        finalize()
+        holder["second"] = True
+        try:                      # nothing left: the name is free and the context still makes / runs tasks
+            p2 = ctx.make_task("tsk", ScriptTask)
+            p2.start()
+            p2.join()
+            ctx.remove_rpc_object(p2)
+            obs["reuse"] = "ok"
+        except Exception as e:  # noqa
+            obs["reuse"] = type(e).__name__
+        ctx.stop()
+        T._TaskThread.run = orig_thread_run
+        return obs
     p = ctx.make_task("tsk", ScriptTask)
+    s.log("made")
     counter = [0]
 
     def cres(kind, fn):
@@ -318,14 +390,18 @@ class Op:
 
 
 def parse(obs):
-    """-> (ops, internal, info).  internal = [(pos, kind, data)] events of the task thread."""
+    """-> (ops, internal).  internal = [(pos, kind, data)] events of the task thread."""
     tr = obs["trace"]
     tw = obs["ids"]["tw"]
     ops, cur = [], None
     internal = []
     for pos, e in enumerate(tr):
         tid, k = e[0], e[1]
-        if tid == 0 and k == "call":
+        if tid == 0 and k == "made":
+            o = Op(-1, "made", None, pos)
+            o.ret, o.res = pos, ["none"]
+            ops.append(o)
+        elif tid == 0 and k == "call":
             cur = Op(e[2], e[3], e[4] if len(e) > 4 else None, pos)
             ops.append(cur)
         elif tid == 0 and k == "ret":
@@ -351,7 +427,8 @@ def out_term(res):
     if res[0] == "none":
         return "ONone"
     if res[0] == "exc":
-        return {"QMI_UsageException": "OUsageError", "QMI_TaskRunException": "OTaskRunError"}.get(
+        return {"QMI_UsageException": "OUsageError", "QMI_TaskRunException": "OTaskRunError",
+                "QMI_TaskInitException": "OInitError"}.get(
             res[1], "OUpd false (-777)%Z")
     if res[0] == "bool":
         return "OBool %s" % cbool(res[1])
@@ -370,11 +447,21 @@ def to_labels(obs):
     # ---- task thread ----
     phase = "init"
     kind = None
+    raised = False
     for pos, k, d in internal:
         if phase == "init":
-            if k == "acq":
-                items.append((pos, "Int TInitDone", "ONone"))
-                phase = "wait"
+            if k == "T_init_raise":
+                raised = True
+            elif k == "acq":
+                if raised:
+                    items.append((pos, "Int TInitFail", "ONone"))
+                    phase = "fin"
+                else:
+                    items.append((pos, "Int TInitDone", "ONone"))
+                    phase = "wait"
+            elif k == "T_exit":
+                items.append((pos, "Int TExit", "ONone"))
+                phase = "done"
         elif phase == "wait":
             if k == "T_begin":
                 items.append((pos, "Int TBeginRun", "ONone"))
@@ -416,7 +503,9 @@ def to_labels(obs):
             continue
         end = o.ret
         res = out_term(o.res)
-        if o.name in ("start", "enter"):
+        if o.name in ("made", "make"):      # completion of the runner's constructor
+            items.append((end, "Ext Ctor", res))
+        elif o.name in ("start", "enter"):
             items.append((o.acq[-1] if o.acq else end, "Ext Start", res))
         elif o.name == "stop":
             items.append((o.evset[0] if o.evset else (o.acq[-1] if o.acq else end), "Ext Stop", res))
@@ -579,10 +668,16 @@ def oracle(script, flat_ops_expected_blocked, res):
             before = [y for y in posts if y.idx < x.idx]
             v = x.res[1]
             if v is None:
-                # an update that returned after the post was issued may have consumed it
-                urets = [pos for pos, _ in upds] + [INF] * (len(upd_calls) - len(upds))
-                if before and not any(ur > before[-1].call for ur in urets):
-                    return "getp-lost", "get_pending_settings() gave None although %r was posted and no update ran since" % (before[-1].arg,)
+                # None is right only if the newest posted value (or a newer one) was delivered by some update:
+                # an update that returned True with an OLDER value took place before this post and cannot have
+                # consumed it
+                pending_upd = len(upd_calls) > len(upds)
+                if before and not pending_upd:
+                    r = posts.index(before[-1]) + 1
+                    delivered = [i + 1 for (_, d) in upds if d[0] is True for i, y in enumerate(posts) if y.arg == d[1]]
+                    if not any(k >= r for k in delivered):
+                        return "getp-lost", "get_pending_settings() gave None although %r was posted and never delivered to the task" % (
+                            before[-1].arg,)
             elif not before or before[-1].arg != v:
                 return "getp-stale", "get_pending_settings() gave %r, the newest posted value is %r" % (
                     v, before[-1].arg if before else None)
@@ -610,7 +705,7 @@ def gen_script(rng):
             body.append([k, rng.choice([0.5, 1.0, 2.0])])
         else:
             body.append(["L", rng.choice([2, 3, 5]), rng.choice([0.5, 1.0])])
-    return {"body": body, "end": rng.choices(["ok", "exc", "baseexc", "stopexc"], weights=[4, 3, 1, 2])[0]}
+    return {"body": body, "end": rng.choices(END_KINDS, weights=[4, 2, 0.7, 0.8, 0.5, 0.3, 1.7, 0.4])[0]}
 
 
 def gen_ops(rng, blocked=False):
@@ -680,6 +775,13 @@ DFS_SCENARIOS = [
 ]
 
 
+# explored with line-level scheduling points (every source line of the functions in TRACED)
+DFS_LINE_SCENARIOS = [
+    ({"body": [["U"], ["U"]], "end": "ok"}, [["set", 1], ["start"], ["set", 2], ["getp"], ["join"]]),
+    ({"body": [["P"], ["U"]], "end": "exc"}, [["start"], ["set", 1], ["stop"], ["isrun"], ["join"]]),
+]
+
+
 def flat_names(ops):
     out = []
     for o in ops:
@@ -691,19 +793,210 @@ def flat_names(ops):
 
 
 # ------------------------------------------------------------------------------------------------
+# task constructor raising: make_task must raise QMI_TaskInitException and leave nothing behind
+# ------------------------------------------------------------------------------------------------
+
+def oracle_initfail(res):
+    st = res["status"]
+    o = res.get("obs")
+    if st == "deadlock":
+        return "init-deadlock", "make_task never returned after the task constructor raised (dead-lock)"
+    if st != "ok" or o is None or o.get("trace") is None:
+        return "harness:" + st, "schedule did not finish (%s): %s" % (st, (res.get("trace") or res.get("info") or "")[:400])
+    ops, internal = parse(o)
+    mk = [x for x in ops if x.name == "make"]
+    if not mk or mk[0].res != ["exc", "QMI_TaskInitException"]:
+        return "init-wrong-result", "make_task gave %s although the task constructor raised" % (mk[0].res if mk else None,)
+    exits = [pos for pos, k, d in internal if k == "T_exit"]
+    if not exits or exits[0] > mk[0].ret:
+        return "init-thread-left", "make_task raised but the task thread had not exited (it was not joined)"
+    if o.get("left_alive"):
+        return "init-threads-left", "threads left behind after the failed make_task: %s" % (o["left_alive"],)
+    if o.get("run_count_w"):
+        return "init-run", "run() was invoked although the task constructor raised"
+    if o.get("reuse") != "ok":
+        return "init-name-left", "after the failed make_task a task of the same name cannot be made and run: %s" % (o.get("reuse"),)
+    return None
+
+
+# ------------------------------------------------------------------------------------------------
+# QMI_LoopTask: missed-period policies under virtual time
+# ------------------------------------------------------------------------------------------------
+TICK = 16.0     # ticks per (virtual) second; all generated times are multiples of 1/16 s: exact in floats
+
+
+def scenario_loop(s, policy, period, t_init, tstop, durs, lines=False):
+    """A real QMI_LoopTask subclass whose loop_iteration takes durs[i] ticks of virtual time (and raises
+    QMI_TaskStopException once the script is exhausted); stop() is issued at absolute tick tstop (None: never).
+    Recorded: (clock, run()'s local next_time) at the entry of every loop_iteration and in loop_finalize."""
+    import sys
+    import qmi.core.task as T
+    import qmi.core.context as C
+    from qmi.core.exceptions import QMI_TaskStopException
+    logging.disable(logging.CRITICAL)
+    obs = {"t0": None, "its": [], "fin": [], "join": None, "stop": None}
+    s.obs = obs
+
+    def nt():
+        fr = sys._getframe(2)          # QMI_LoopTask.run, the caller of loop_iteration / loop_finalize
+        return fr.f_locals.get("next_time") if fr.f_code.co_name == "run" else None
+
+    class LoopScript(T.QMI_LoopTask):
+        def __init__(self, runner, name, **kw):
+            super().__init__(runner, name, **kw)
+            self._i = 0
+
+        def loop_prepare(self):
+            obs["t0"] = s.clock
+
+        def loop_iteration(self):
+            obs["its"].append([s.clock, nt()])
+            i = self._i
+            self._i += 1
+            if i >= len(durs):
+                raise QMI_TaskStopException()
+            if durs[i] > 0:
+                dsched.FAKE_TIME.sleep(durs[i] / TICK)
+
+        def loop_finalize(self):
+            obs["fin"].append([s.clock, nt()])
+
+    ctx = C.QMI_Context("c10loop")
+    ctx.start()
+    if lines:
+        dsched.enable_line_yields([T.QMI_LoopTask.run, T._TaskThread.stop_task])
+    if t_init:
+        dsched.FAKE_TIME.sleep(t_init / TICK)
+    pol = getattr(T.QMI_LoopTaskMissedLoopPolicy, policy)
+    p = ctx.make_task("lt", LoopScript, loop_period=period / TICK, policy=pol)
+    p.start()
+    if tstop is not None:
+        dsched.FAKE_TIME.sleep(tstop / TICK - s.clock)
+        try:
+            obs["stop"] = ["none"] if p.stop() is None else ["weird"]
+        except Exception as e:  # noqa
+            obs["stop"] = ["exc", type(e).__name__]
+    try:
+        obs["join"] = ["none"] if p.join() is None else ["weird"]
+    except Exception as e:  # noqa
+        obs["join"] = ["exc", type(e).__name__]
+    obs["end_clock"] = s.clock
+    ctx.stop()
+    return obs
+
+
+def ticks(x):
+    if x is None:
+        return None
+    v = x * TICK
+    r = int(round(v))
+    return r if abs(v - r) < 1e-9 else None
+
+
+def loop_obs_ticks(o):
+    its = [[ticks(a), ticks(b)] for a, b in o["its"]]
+    fin = [[ticks(a), ticks(b)] for a, b in o["fin"]]
+    return its, fin, ticks(o["t0"])
+
+
+def oracle_loop(policy, p, t_init, tstop, durs, res):
+    """C10's loop-task statements on the observations (no model): next_time in the future at every entry;
+    on time -> wakes exactly at next_time and advances it by one period; late -> IMMEDIATE re-bases to
+    now+period, SKIP moves to the first grid point after now, TERMINATE ends the loop; loop_finalize runs
+    exactly once; join returns."""
+    st = res["status"]
+    o = res.get("obs")
+    if st == "deadlock":
+        return "loop-deadlock", "the loop task never ended (dead-lock)"
+    if st != "ok" or o is None:
+        return "harness:" + st, "schedule did not finish (%s): %s" % (st, (res.get("trace") or res.get("info") or "")[:400])
+    its, fin, t0 = loop_obs_ticks(o)
+    if o["join"] != ["none"]:
+        return "loop-join", "join() gave %s" % (o["join"],)
+    if len(fin) != 1:
+        return "loop-finalize", "loop_finalize ran %d times" % len(fin)
+    if t0 is None or any(a is None or b is None for a, b in its + fin):
+        return "loop-weird-time", "a recorded time is not a whole number of ticks / next_time not readable: %s" % (o["its"][:4],)
+    for i, (now, nx) in enumerate(its):
+        if not nx > now:
+            return "loop-next-not-future", "iteration %d starts at %d with next_time %d (not in the future)" % (i, now, nx)
+        if i >= len(durs):
+            if i + 1 < len(its):
+                return "loop-after-script-end", "an iteration ran after the scripted stop exception"
+            continue
+        end = now + durs[i]
+        nxt = its[i + 1] if i + 1 < len(its) else None
+        stopped_by = tstop is not None and tstop < max(end, nx if nx > end else end)
+        if nx - end > 0:      # on time
+            if nxt is not None and nxt != [nx, nx + p]:
+                return "loop-drift", "on-time iteration %d (next_time %d): the next one starts at %d with next_time %d, expected %d / %d" % (
+                    i, nx, nxt[0], nxt[1], nx, nx + p)
+            if nxt is None and not stopped_by and fin[0][0] != nx and i + 1 <= len(durs):
+                return "loop-ended-early", "the loop ended after on-time iteration %d without a stop request" % i
+        else:                 # a missed period
+            after = nxt if nxt is not None else fin[0]
+            n2 = after[1]
+            if policy == "TERMINATE":
+                if nxt is not None:
+                    return "loop-terminate-continues", "policy TERMINATE: iteration %d missed its period but iteration %d ran" % (i, i + 1)
+                if n2 != nx:
+                    return "loop-terminate-next", "policy TERMINATE changed next_time (%d -> %d)" % (nx, n2)
+            else:
+                if nxt is not None and nxt[0] != end:
+                    return "loop-late-start", "after late iteration %d the next one starts at %d, not at once (%d)" % (i, nxt[0], end)
+                if policy == "IMMEDIATE" and n2 != end + p:
+                    return "loop-immediate", "policy IMMEDIATE: next_time %d after a missed period at %d, expected now+period = %d" % (n2, end, end + p)
+                if policy == "SKIP" and not (n2 > end and n2 - p <= end and (n2 - nx) % p == 0 and n2 > nx):
+                    return "loop-skip", "policy SKIP: next_time %d -> %d after a missed period at %d (period %d): not the first grid point after now" % (
+                        nx, n2, end, p)
+    if fin[0][0] < (its[-1][0] if its else t0):
+        return "loop-finalize-early", "loop_finalize ran before the last iteration"
+    return None
+
+
+def coq_lcase(policy, p, t0, tstop, durs, its, fin):
+    return "(%s, %s, %s, %s, %s, (%s, (%s, %s)))" % (
+        policy, cZ(p), cZ(t0), "None" if tstop is None else "(Some %s)" % cZ(tstop), clist([cZ(d) for d in durs]),
+        clist(["(%s, %s)" % (cZ(a), cZ(b)) for a, b in its]), cZ(fin[0]), cZ(fin[1]))
+
+
+def gen_loop(rng):
+    policy = rng.choice(["IMMEDIATE", "SKIP", "TERMINATE"])
+    p = rng.choice([2, 4, 8, 8, 16, 6, 10])
+    t_init = rng.choice([0, 0, 2, 6, 32])
+    n = rng.randint(1, 8)
+    durs = []
+    for _ in range(n):
+        k = rng.choices(["short", "zero", "exact", "late", "verylate", "multiple"], weights=[5, 1, 1.5, 3, 2, 1.5])[0]
+        durs.append({"short": 2 * rng.randint(0, max(0, p // 2 - 1)), "zero": 0, "exact": p,
+                     "late": p + 2 * rng.randint(0, p // 2), "verylate": 2 * rng.randint(p, 3 * p),
+                     "multiple": p * rng.randint(1, 4)}[k])
+    total = sum(durs) + p * n
+    tstop = None if rng.random() < 0.4 else t_init + 2 * rng.randint(0, max(1, total // 2)) + 1   # odd: never ties
+    return policy, p, t_init, tstop, durs
+
+
+# ------------------------------------------------------------------------------------------------
 # the check
 # ------------------------------------------------------------------------------------------------
 
-def handle(ck, script, ops, blocked, res, sched_desc, terms, metas):
+def handle(ck, script, ops, blocked, res, sched_desc, terms, metas, init_fail=None):
+    res.pop("events", None)
     ck.count("status:" + res["status"])
-    ck.count("end:" + script["end"])
     names = flat_names(ops)
-    for nm in set(names):
-        ck.count("op:" + nm)
-    replay = {"script": script, "ops": ops, "blocked": blocked, "window": sched_desc[0],
-              "schedule": res.get("choices"), "status": res["status"]}
-    bad = oracle(script, blocked, res)
-    ck.note_case((script, ops, tuple(res.get("choices") or ())), "start" in names or "enter" in names)
+    lines = len(sched_desc) > 2 and bool(sched_desc[2])
+    replay = {"kind": "life", "script": script, "ops": ops, "blocked": blocked, "window": sched_desc[0], "lines": lines,
+              "init_fail": init_fail, "schedule": res.get("choices"), "status": res["status"]}
+    if init_fail:
+        ck.count("ctor_raises:%s/%s" % tuple(init_fail))
+        bad = oracle_initfail(res)
+        ck.note_case(("initfail", init_fail, tuple(res.get("choices") or ())), True)
+    else:
+        ck.count("end:" + script["end"])
+        for nm in set(names):
+            ck.count("op:" + nm)
+        bad = oracle(script, blocked, res)
+        ck.note_case((script, ops, tuple(res.get("choices") or ())), "start" in names or "enter" in names)
     if bad:
         o = res.get("obs") or {}
         replay["events"] = (o.get("trace") or [])[:400]
@@ -713,12 +1006,13 @@ def handle(ck, script, ops, blocked, res, sched_desc, terms, metas):
     labels, blk = to_labels(o)
     done = any(lab == "Int TExit" for lab, _ in labels)
     ck.count("run_count:%d" % o["run_count_w"])
-    if o["run_count_w"]:
+    if o["run_count_w"] and not init_fail:
         ck.count("run_end:%s" % o["run_end"])
     ck.count("trace_len:%s" % ("<20" if len(labels) < 20 else "20-39" if len(labels) < 40 else "40+"))
     for lab, out in labels:
         if lab == "Int TUpdate":
             ck.count("update:" + ("true" if out.startswith("OUpd true") else "false"))
+    o.pop("trace", None)
     terms.append(coq_case(labels, o["run_count_w"], done, blk))
     metas.append((replay, labels, o["run_count_w"], done, blk))
 
@@ -734,69 +1028,166 @@ def retry_if_hung(res, job):
     return res
 
 
+def run_chunked(ck, jobs, deadline, chunk=800):
+    """Run jobs in chunks (the parent stays small, so forking stays cheap); stop launching new chunks after
+    the deadline.  Yields (index, result)."""
+    for k in range(0, len(jobs), chunk):
+        if time.time() > deadline:
+            ck.coverage["time_capped"] = ck.coverage.get("time_capped", 0) + (len(jobs) - k)
+            return
+        part = jobs[k:k + chunk]
+        results = dsched.run_forked(part, nproc=16, wall_timeout=30.0)
+        for j, res in enumerate(results):
+            yield k + j, retry_if_hung(res, part[j])
+
+
 def run(ck):
     ck.theory_dir = THEORY
     ck.build_theory(THEORY)
     ck.trusted = [
-        "Coq 8.16.1 kernel (vm_compute evaluates the model on the recorded interleavings)",
-        "model theories/C10/Model.v: _TaskThread / QMI_TaskRunner / update_settings transcribed by hand as an LTS over an "
-        "abstract value type, tied to /repo by trace acceptance of real schedules in this run",
-        "dsched deterministic scheduler and its cooperative Lock/RLock/Condition/Event/Thread (define what a schedule is)",
+        "Coq 8.16.1 kernel (vm_compute evaluates the models on the recorded interleavings / loop runs)",
+        "model theories/C10/Model.v: QMI_TaskRunner constructor / _TaskThread / runner methods / update_settings transcribed "
+        "by hand as an LTS over an abstract value type, tied to /repo by trace acceptance of real schedules in this run",
+        "model theories/C10/ModelLoop.v: QMI_LoopTask.run period arithmetic over integer ticks, tied by running real "
+        "QMI_LoopTask subclasses under virtual time (run()'s local next_time is read from its frame)",
+        "dsched deterministic scheduler, its cooperative Lock/RLock/Condition/Event/Thread, virtual clock and line-level "
+        "scheduling points (define what a schedule is)",
         "harness c10.py: scripted task classes, logging deque subclass for the settings slot (same maxlen), settings "
         "property, wrapper logging the return of _TaskThread.run, placement of each operation at its linearisation event",
     ]
     ck.assumptions = [
         "each model label is atomic in the implementation: regions under _state_cond, Event.set / is_set / wait, single "
-        "deque operations (GIL), and 'self.settings = fifo.pop()' taken as one step (no switch between pop and store)",
+        "deque operations (GIL), and the statement 'self.settings = fifo.pop()' taken as one step; checked at "
+        "synchronisation granularity everywhere and at source-line granularity (dsched.enable_line_yields on %s) in a share "
+        "of the schedules — not at bytecode granularity" % ", ".join(TRACED),
         "the runner's RPC methods are executed one at a time by its RPC worker (QMI's RPC layer; C03)",
         "task scripts terminate; join() on a task that is never started nor stopped blocks by documentation (model: "
         "disabled step) and is exercised only as an expected dead-lock",
-        "EXCEPTION_WHILE_INSTANTIATING_TASK, wait_for_condition (C11), get_status and QMI_LoopTask are outside the model",
+        "loop task: time values are dyadic (multiples of 1/16 s), so the code's float arithmetic is exact and int() of the "
+        "non-negative quotient is Z.div; stop requests never coincide with a wake-up instant",
+        "wait_for_condition (C11), get_status and what run() computes are outside the model",
     ]
     import qmi.core.task, qmi.core.context, qmi.core.rpc, qmi.core.messaging, qmi.core.pubsub  # noqa (before fork)
     rng = ck.rng
     quick = ck.tier == "quick"
-    n_random = 2400 if quick else 16000
-    n_pct = 800 if quick else 6000
-    n_blocked = 24 if quick else 150
-    dfs_runs = 450 if quick else 5000
+    n_random = 2400 if quick else 9000
+    n_pct = 700 if quick else 3000
+    n_blocked = 24 if quick else 100
+    n_loop = 360 if quick else 3000
+    bucket_seeds = 4 if quick else 16
+    line_share = 0.3
+    dfs_runs = 450 if quick else 1300
     dfs_bound = 1 if quick else 2
+    # wall-clock caps for the schedule phase (the Coq evaluation of the recorded cases follows)
+    deadline = ck.t0 + (70 if quick else 230)
     terms, metas = [], []
 
+    # ---- fixed bucket: the exception class raised by run() / by the task constructor is an input -------------
     jobs, descr = [], []
+    bucket_ops = [[["start"], ["isrun"], ["join"], ["isrun"]],
+                  [["set", 1], ["start"], ["sleep", 0.75], ["isrun"], ["stop"], ["join"], ["isrun"], ["remove"]],
+                  [["with", [["isrun"], ["sleep", 0.75], ["isrun"]]], ["isrun"]]]
+    for end in END_KINDS:
+        for ops in bucket_ops:
+            for k in range(bucket_seeds):
+                script = {"body": [["U"]] if k % 2 else [], "end": end}
+                lines = k % 2 == 1
+                jobs.append((scenario, (script, ops, "ops", lines), dict(strategy="random", seed=rng.randrange(1 << 30))))
+                descr.append((script, ops, False, ("ops", "bucket", lines), None))
+    for kind in END_KINDS[1:]:
+        for place in ("pre", "post"):
+            for k in range(bucket_seeds):
+                lines = k % 2 == 1
+                script = {"body": [], "end": "ok"}
+                jobs.append((scenario, (script, [], "all", lines, [kind, place]),
+                             dict(strategy="random", seed=rng.randrange(1 << 30))))
+                descr.append((script, [], False, ("all", "bucket", lines), [kind, place]))
+    # ---- random / PCT schedules of random scripts x random operation sequences ---------------------------------
     for i in range(n_random + n_pct):
         script, ops = gen_script(rng), gen_ops(rng)
         strat = "random" if i < n_random else "pct"
         window = rng.choice(["all", "ops", "ops"])
+        lines = rng.random() < line_share
         kw = dict(strategy=strat, seed=rng.randrange(1 << 30))
         if strat == "random":
             kw["switch_prob"] = rng.choice([0.1, 0.35, 0.6])
-        jobs.append((scenario, (script, ops, window), kw))
-        descr.append((script, ops, False, (window, strat)))
+        jobs.append((scenario, (script, ops, window, lines), kw))
+        descr.append((script, ops, False, (window, strat, lines), None))
     for i in range(n_blocked):
         script, ops = gen_script(rng), gen_ops(rng, blocked=True)
         jobs.append((scenario, (script, ops, "ops"), dict(strategy="random", seed=rng.randrange(1 << 30))))
-        descr.append((script, ops, True, ("ops", "random")))
-    results = dsched.run_forked(jobs, nproc=16, wall_timeout=30.0)
-    results = [retry_if_hung(res, job) for res, job in zip(results, jobs)]
-    for (script, ops, blocked, sd), res in zip(descr, results):
+        descr.append((script, ops, True, ("ops", "random", False), None))
+    for idx, res in run_chunked(ck, jobs, deadline):
+        script, ops, blocked, sd, init_fail = descr[idx]
         ck.count("strategy:" + sd[1])
-        handle(ck, script, ops, blocked, res, sd, terms, metas)
-    for script, ops in DFS_SCENARIOS:
-        for res in dsched.explore_dfs(scenario, (script, ops, "ops"), preemption_bound=dfs_bound, max_runs=dfs_runs,
-                                      nproc=16, wall_timeout=30.0):
+        ck.count("line_yields:%s" % ("on" if sd[2] else "off"))
+        handle(ck, script, ops, blocked, res, sd, terms, metas, init_fail)
+    # ---- loop task ----------------------------------------------------------------------------------------------
+    lterms, lmetas = [], []
+    ljobs, ldescr = [], []
+    fixed_loops = [(pol, 8, 0, ts, durs) for pol in ("IMMEDIATE", "SKIP", "TERMINATE")
+                   for ts, durs in ((None, [2, 30, 4, 20, 0]), (None, [8, 16, 24, 2]), (43, [2, 30, 4, 20, 0]), (None, [0, 0, 40]))]
+    for i in range(len(fixed_loops) + n_loop):
+        policy, p, t_init, tstop, durs = fixed_loops[i] if i < len(fixed_loops) else gen_loop(rng)
+        lines = i % 4 == 3
+        ljobs.append((scenario_loop, (policy, p, t_init, tstop, durs, lines), dict(strategy="random", seed=rng.randrange(1 << 30))))
+        ldescr.append((policy, p, t_init, tstop, durs, lines))
+    for idx, res in run_chunked(ck, ljobs, deadline + 15):
+        policy, p, t_init, tstop, durs, lines = ldescr[idx]
+        res.pop("events", None)
+        ck.count("loop:" + policy)
+        replay = {"kind": "loop", "policy": policy, "period": p, "t_init": t_init, "tstop": tstop, "durs": durs,
+                  "lines": lines, "schedule": res.get("choices"), "status": res["status"]}
+        bad = oracle_loop(policy, p, t_init, tstop, durs, res)
+        ck.note_case(("loop", policy, p, t_init, tstop, tuple(durs)), any(d >= p for d in durs))
+        if bad:
+            replay["observed"] = res.get("obs")
+            ck.report("oracle:" + bad[0], "C10 (loop task) fails on the implementation: " + bad[1], replay)
+            continue
+        its, fin, t0 = loop_obs_ticks(res["obs"])
+        nlate = sum(1 for k, (now, nx) in enumerate(its) if k < len(durs) and nx - (now + durs[k]) <= 0)
+        ck.count("loop_missed_periods:%s" % (nlate if nlate < 3 else "3+"))
+        ck.count("loop_stop:%s" % ("external" if tstop is not None else "none"))
+        lterms.append(coq_lcase(policy, p, t0, tstop, durs, its, fin[0]))
+        lmetas.append((replay, its, fin[0], t0))
+    # ---- systematic: all schedules with a bounded number of preemptions on short scenarios ----------------------
+    # the task constructor raises: all schedules of make_task with at most one preemption
+    for init_fail in (["exc", "pre"], ["sysexit", "post"]):
+        script = {"body": [], "end": "ok"}
+        for res in dsched.explore_dfs(scenario, (script, [], "ops", False, init_fail), preemption_bound=1,
+                                      max_runs=dfs_runs, nproc=16, wall_timeout=30.0):
+            if res["status"] == "_summary":
+                ck.coverage.setdefault("dfs", []).append({"ops": ["make_task, constructor raises %s" % init_fail[0]],
+                                                          "runs": res["runs"], "bound": 1,
+                                                          "exhausted_within_preemption_bound": res["exhausted"]})
+                continue
+            ck.count("strategy:dfs")
+            res = retry_if_hung(res, (scenario, (script, [], "ops", False, init_fail),
+                                      dict(strategy="replay", schedule=list(res.get("prefix") or []))))
+            handle(ck, script, [], False, res, ("ops", "dfs", False), terms, metas, init_fail)
+    for (script, ops), lines in [(x, True) for x in DFS_LINE_SCENARIOS] + [(x, False) for x in DFS_SCENARIOS]:
+        if time.time() > deadline + 20:
+            ck.coverage["time_capped"] = ck.coverage.get("time_capped", 0) + 1
+            break
+        bound = 1 if lines else dfs_bound
+        for res in dsched.explore_dfs(scenario, (script, ops, "ops", lines), preemption_bound=bound,
+                                      max_runs=max(dfs_runs, 900) if lines else dfs_runs, nproc=16, wall_timeout=30.0):
             if res["status"] == "_summary":
                 ck.coverage.setdefault("dfs", []).append({"ops": flat_names(ops), "end": script["end"], "runs": res["runs"],
                                                           "exhausted_within_preemption_bound": res["exhausted"],
-                                                          "bound": dfs_bound})
+                                                          "bound": bound, "line_level": lines})
                 continue
-            ck.count("strategy:dfs")
-            res = retry_if_hung(res, (scenario, (script, ops, "ops"),
+            ck.count("strategy:dfs-lines" if lines else "strategy:dfs")
+            res = retry_if_hung(res, (scenario, (script, ops, "ops", lines),
                                       dict(strategy="replay", schedule=list(res.get("prefix") or []))))
-            handle(ck, script, ops, False, res, ("ops", "dfs"), terms, metas)
+            handle(ck, script, ops, False, res, ("ops", "dfs", lines), terms, metas)
     for m in metas[:2] + metas[-1:]:
-        ck.sample({"script": m[0]["script"], "ops": m[0]["ops"], "schedule_len": len(m[0]["schedule"] or []),
+        ck.sample({"script": m[0]["script"], "ops": m[0]["ops"], "init_fail": m[0]["init_fail"],
+                   "schedule_len": len(m[0]["schedule"] or []),
                    "interleaving": ["%s -> %s" % (a, b) for a, b in m[1]], "run_count": m[2], "thread_exited": m[3]}, 3)
+    for m in lmetas[:1]:
+        ck.sample({"loop": {k: m[0][k] for k in ("policy", "period", "t_init", "tstop", "durs")},
+                   "iterations (clock, next_time) in ticks": m[1], "finalize": m[2]}, 4)
     bad = ck.run_model("C10.Corr", "check_case", terms, "case", shard=150)
     ck.coverage["correspondence_disagreements"] = len(bad)
     for i in bad[:4]:
@@ -805,20 +1196,42 @@ def run(ck):
         replay = dict(replay, interleaving=["%s -> %s" % (a, b) for a, b in labels], impl_run_count=rc,
                       impl_thread_exited=done, model_out=mo[-1500:],
                       broken="correspondence C10.Corr.check_case (trace acceptance)")
-        ck.report("corr:" + "-".join(flat_names(replay["ops"]))[:60],
+        ck.report("corr:" + ("-".join(flat_names(replay["ops"])) or "make")[:60],
                   "a real interleaving is not accepted by the Coq model, or a result / run() count differs "
                   "(the property oracle passed on it)", replay, found_input=False)
-    return ck.finish("seeded random and PCT schedules of random task scripts x random proxy-operation sequences "
-                     "(plain, with-form, stop-first, remove), expected-blocked joins, and stateless DFS with <= %d "
-                     "preemption(s) on %d short scenarios; non-trivial = contains a start; distinct by (script, ops, schedule)"
+    lbad = ck.run_model("C10.Corr", "check_lcase", lterms, "lcase", shard=300)
+    ck.coverage["loop_correspondence_disagreements"] = len(lbad)
+    for i in lbad[:3]:
+        replay, its, fin, t0 = lmetas[i]
+        mo = ck.model_eval("C10.Corr", "lmodel_out %s" % coq_lcase(replay["policy"], replay["period"], t0, replay["tstop"],
+                                                                  replay["durs"], its, fin))
+        ck.report("corr:loop:" + replay["policy"], "a real QMI_LoopTask run differs from ModelLoop.loop_run (the loop oracle "
+                  "passed on it)", dict(replay, impl_iterations=its, impl_finalize=fin, model_out=mo[-1200:],
+                                        broken="correspondence C10.Corr.check_lcase"), found_input=False)
+    return ck.finish("fixed bucket (every exception class for run() and for the task constructor x 3 operation sequences); "
+                     "seeded random and PCT schedules of random task scripts x random proxy-operation sequences (plain, "
+                     "with-form, stop-first, remove; ~30%% with line-level scheduling points); expected-blocked joins; loop "
+                     "tasks with scripted iteration durations under virtual time; stateless DFS with <= %d preemption(s) on "
+                     "%d short scenarios; non-trivial = contains a start / a missed period; distinct by (script, ops, schedule)"
                      % (dfs_bound, len(DFS_SCENARIOS)))
 
 
 def replay(rep):
     c = rep["case"]
     import qmi.core.task, qmi.core.context, qmi.core.rpc, qmi.core.messaging, qmi.core.pubsub  # noqa
-    res = dsched.run_forked([(scenario, (c["script"], c["ops"], c.get("window", "ops")),
-                              dict(strategy="replay", schedule=list(c.get("schedule") or [])))], nproc=1, wall_timeout=60.0)[0]
+    kw = dict(strategy="replay", schedule=list(c.get("schedule") or []))
+    if c.get("kind") == "loop":
+        res = dsched.run_forked([(scenario_loop, (c["policy"], c["period"], c["t_init"], c["tstop"], c["durs"],
+                                                  c.get("lines", False)), kw)], nproc=1, wall_timeout=60.0)[0]
+        print("status:", res["status"])
+        if res.get("obs"):
+            its, fin, t0 = loop_obs_ticks(res["obs"])
+            print("t0:", t0, " iterations (clock, next_time):", its, " finalize:", fin, " join:", res["obs"]["join"])
+        bad = oracle_loop(c["policy"], c["period"], c["t_init"], c["tstop"], c["durs"], res)
+        print("oracle:", bad or "property holds on this run")
+        return 1 if bad else 0
+    res = dsched.run_forked([(scenario, (c["script"], c["ops"], c.get("window", "ops"), c.get("lines", False),
+                                         c.get("init_fail")), kw)], nproc=1, wall_timeout=60.0)[0]
     print("status:", res["status"])
     o = res.get("obs") or {}
     if o.get("trace") is not None:
@@ -826,6 +1239,6 @@ def replay(rep):
         print("run() invocations:", o["run_count"], " run ended:", o["run_end"], " blocked in join:", blk)
         for a, b in labels:
             print("   %-28s -> %s" % (a, b))
-    bad = oracle(c["script"], c.get("blocked", False), res)
+    bad = oracle_initfail(res) if c.get("init_fail") else oracle(c["script"], c.get("blocked", False), res)
     print("oracle:", bad or "property holds on this interleaving")
     return 1 if bad else 0
